@@ -344,7 +344,19 @@ fn goal_text(g: &Value) -> String {
                 "throw" => "throw(b1)".to_string(),
                 _ => format!("c12_mark({})", g["i"]),
             };
-            format!("setup_call_cleanup({}, {}, c12_mark({}))", s, goal_text(&g["a"]), g["i"].as_i64().unwrap_or(0) + 1000)
+            // the cleanup always succeeds, leaves no binding and lets no exception out, but may
+            // catch and throw internally (while the goal's own exception is unwinding)
+            let i = g["i"].as_i64().unwrap_or(0);
+            let extra = match g["cl"].as_u64().unwrap_or(0) {
+                1 => ", catch(throw(cl), cl, true)".to_string(),
+                2 => ", \\+ catch(throw(cl), cl, fail)".to_string(),
+                3 => format!(", catch(throw(cl), _, c12_mark({}))", i + 2000),
+                4 => ", catch(catch(throw(cl), nomatch, true), cl, true)".to_string(),
+                5 => ", findall(Q, catch(member(Q, [1,2]), _, true), _)".to_string(),
+                6 => ", catch(catch(throw(cl), cl, throw(cl2)), cl2, true)".to_string(),
+                _ => String::new(),
+            };
+            format!("setup_call_cleanup({}, {}, (c12_mark({}){}))", s, goal_text(&g["a"]), i + 1000, extra)
         }
         _ => "true".into(),
     }
@@ -404,7 +416,8 @@ fn gen_goal(rng: &mut Prng, depth: u32, next_mark: &mut i64) -> Value {
                 1 => "throw",
                 _ => "mark",
             };
-            json!({"t": "scc", "s": s, "i": *next_mark + 100, "a": gen_goal(rng, depth - 1, next_mark)})
+            let cl = if rng.chance(1, 2) { rng.range(1, 6) } else { 0 };
+            json!({"t": "scc", "s": s, "cl": cl, "i": *next_mark + 100, "a": gen_goal(rng, depth - 1, next_mark)})
         }
     }
 }
@@ -632,8 +645,18 @@ impl Check for C12 {
                         return Err(("wrong-trace".into(), "marks-differ".into(), format!("`{goal}`\n marks {:?}\n reference semantics give {:?}", plain, want_marks)));
                     }
                     let mut cleanups: BTreeMap<i64, u64> = BTreeMap::new();
+                    let mut aux: BTreeMap<i64, u64> = BTreeMap::new();
                     for x in obs.marks.iter().filter(|x| **x >= 1000) {
-                        *cleanups.entry(*x - 1000).or_insert(0) += 1;
+                        if *x >= 2000 {
+                            *aux.entry(*x - 2000).or_insert(0) += 1;
+                        } else {
+                            *cleanups.entry(*x - 1000).or_insert(0) += 1;
+                        }
+                    }
+                    for (id, n) in aux.iter() {
+                        if cleanups.get(id) != Some(n) {
+                            return Err(("cleanup-count".into(), "cleanup-recovery-count".into(), format!("`{goal}`\n the recovery goal inside the cleanup of setup_call_cleanup {id} ran {n} times, the cleanup {:?} times (marks {:?})", cleanups.get(id), obs.marks)));
+                        }
                     }
                     if cleanups != setups {
                         return Err(("cleanup-count".into(), "cleanup-not-exactly-once".into(), format!("`{goal}`\n cleanups run per setup_call_cleanup {:?}, setups completed {:?} (marks {:?})", cleanups, setups, obs.marks)));
@@ -657,6 +680,9 @@ impl Check for C12 {
                     out.bump("fault.interrupt_fired", 1);
                     let mut setups: BTreeMap<i64, i64> = BTreeMap::new();
                     for x in fobs.marks.iter() {
+                        if *x >= 2000 {
+                            continue;
+                        }
                         if *x >= 1000 {
                             *setups.entry(*x - 1000).or_insert(0) -= 1;
                         } else if *x > 100 {
